@@ -38,6 +38,8 @@ def instances(tier, seed):
     for space in ("GS", "EX"):
         for scheme in (2, 4):
             out.append(dict(op="propagator", space=space, scheme=scheme, label="exact_propagator %s scheme=%d" % (space, scheme), key="propagator/%s" % space))
+    for scheme in (2, 4):
+        out.append(dict(op="propagator_ex", scheme=scheme, label="exact_propagator EX eigen-decomposition per mode scheme=%d" % scheme, key="propagator/EX/modes"))
     for cls in ("mps", "mpdm"):
         for space in ("GS",):
             out.append(dict(op="evolve_exact", cls=cls, space=space, label="evolve_exact %s %s symbolic offset" % (cls, space), key="evolve_exact/%s" % cls))
@@ -54,6 +56,80 @@ def holstein(nmol=2, nlev=2, scheme=2):
         ph = Phonon.simple_phonon(Quantity(0.8 + 0.3 * i), Quantity(0.5), nlev)
         mols.append(Mol(Quantity(0.0), [ph]))
     return HolsteinModel(mols, Quantity(0.1), scheme=scheme)
+
+
+def holstein_ex(scheme=2, nlev=3):
+    """two molecules with two modes each; a pair of modes shares the frequency but not the displacement, another pair is identical"""
+    from renormalizer.model import HolsteinModel, Mol, Phonon
+    from renormalizer.utils import Quantity
+    pars = [[(0.8, 0.5), (1.1, 0.3)], [(0.8, -0.7), (1.1, 0.3)]]
+    mols = [Mol(Quantity(0.0), [Phonon.simple_phonon(Quantity(w), Quantity(d), nlev) for w, d in pp]) for pp in pars]
+    return HolsteinModel(mols, Quantity(0.1), scheme=scheme), [ph for m in mols for ph in m.ph_list]
+
+
+def ex_site_matches(ctx, T, ph, x, extra, tol=1e-9):
+    """T (n x n site matrix of the EX propagator) against  sum_k E(x w_k) v_k v_k^T  for the eigenpairs of THIS mode's displaced-oscillator
+    Hamiltonian, built independently.  The eigenpairs are floats from LAPACK, so this is a numeric comparison (tolerance 1e-9) of the
+    coefficient matrix of every exponential atom E(x w) - x (and the shift) stay symbolic."""
+    from symnum import expr as X
+    n = ph.pbond
+    b = np.diag(np.sqrt(np.arange(1, n)), 1)
+    h = np.diag(np.arange(n)) * ph.omega[0] + (b + b.T) * ph.term10
+    w, v = np.linalg.eigh(h)
+    if not ctx.symbolic:
+        ref = (v * np.exp(x * w)).dot(v.T) * extra
+        return bool(np.allclose(np.asarray(T, dtype=complex), ref, atol=tol, rtol=1e-9))
+    acc = np.zeros((n, n, n))
+    for a_ in range(n):
+        for b_ in range(n):
+            ent = T[a_, b_]
+            if not hasattr(ent, "re"):
+                return False
+            if ent.im is not None:
+                return False
+            for mono, c in X.poly(ent.re).items():
+                ws = []
+                for at in mono:
+                    nd = X._nodes[at] if isinstance(at, int) else at
+                    if nd.op == "uf" and nd.args[0] == "exp":
+                        pa = X.poly(nd.args[1])
+                        if len(pa) == 1:
+                            (mm, cc), = pa.items()
+                            names = [getattr(X._nodes[z] if isinstance(z, int) else z, "args", ("?",))[0] for z in mm]
+                            if names == ["x"]:
+                                ws.append(float(cc))
+                if len(ws) != 1:
+                    return False
+                k = int(np.argmin(np.abs(w - ws[0])))
+                if abs(w[k] - ws[0]) > tol:
+                    return False
+                acc[k, a_, b_] += float(c)
+    for k in range(n):
+        if np.max(np.abs(acc[k] - np.outer(v[:, k], v[:, k]))) > tol:
+            return False
+    return True
+
+
+def _strip_shift(ctx, t, shift, x):
+    """remove the scalar E(shift x) carried by the centre site (concrete: divide; symbolic: drop that atom from every monomial)"""
+    from symnum import expr as X, sym as S
+    if not ctx.symbolic:
+        return np.asarray(t) / np.exp(shift * x)
+    target = S._lift(shift * x).exp().re
+    out = np.empty(t.shape, dtype=object)
+    for idx in np.ndindex(*t.shape):
+        ent = t[idx]
+        if not hasattr(ent, "re"):
+            out[idx] = ent
+            continue
+        pl = {}
+        for mono, c in X.poly(ent.re).items():
+            m2 = tuple(a for a in mono if (X._nodes[a] if isinstance(a, int) else a) is not target)
+            if len(m2) != len(mono) - 1:
+                m2 = mono + ("missing-shift-factor",) if False else mono   # factor absent: leave as is, the comparison will fail
+            pl[m2] = pl.get(m2, 0) + c
+        out[idx] = S.Sym(X.from_poly(pl, "R"))
+    return out
 
 
 def make_harness(P):
@@ -130,6 +206,27 @@ def make_harness(P):
                     ctx.check("normalize(mps_and_coeff): prefactor becomes its phase", ctx.eq(psi.coeff * abs(c0), c0))
                 else:
                     ctx.check("normalize(mps_norm_to_coeff): the norm moves into the prefactor (represented vector unchanged)", ctx.eq(psi.coeff, c0 * N))
+            return
+        if op == "propagator_ex":
+            model, phs = holstein_ex(P["scheme"])
+            x = ctx.real("x", -0.4)
+            shift = ctx.real("shift", 0.25)
+            prop = Mpo.exact_propagator(model, x, "EX", shift)
+            E = (lambda a: S._lift(a).exp()) if ctx.symbolic else (lambda a: np.exp(a))
+            conds = []
+            it = iter(phs)
+            for i, b in enumerate(model.basis):
+                t = np.asarray(prop[i].array)[0, :, :, 0]
+                if not b.is_phonon:
+                    refm = np.eye(b.nbas, dtype=object if ctx.symbolic else float)
+                    if i == prop.qnidx:
+                        refm = refm * E(shift * x)
+                    conds.append(ctx.eq(t, refm))
+                    continue
+                ph = next(it)
+                conds.append(ex_site_matches(ctx, _strip_shift(ctx, t, shift, x) if i == prop.qnidx else t, ph, x, 1.0))
+            ctx.check("EX propagator: every vibrational site tensor is sum_k E(x w_k) v_k v_k^T for the eigenpairs of ITS OWN displaced-oscillator Hamiltonian (numeric coefficients, "
+                      "1e-9); electronic sites are identities; E(shift x) sits on the centre site", ctx.all(conds))
             return
         if op == "propagator":
             model = holstein(2, 3, P["scheme"])
@@ -258,7 +355,7 @@ def main(tier, seed):
                     "prefactor, time step and NON-ZERO symbolic energy offset: the offset phase cancels, the input is untouched; MpDm.max_entangled_gs.",
         assumptions=["NOT covered (DESIGN.md section 2): that many imaginary-time steps converge to the Gibbs state / canonical averages, ThermalProp's averages - limits of float iterations",
                      "exp/cos/sin are uninterpreted functions; the only analytic fact used is cos^2 + sin^2 = 1 for the offset phase (stated as a lemma) and parity of cos/sin",
-                     "canonicalise/compress are identity stubs (C04/C05)", "the EX-space tensors V diag(E(x w)) V^T come from LAPACK eigh on concrete matrices: only x = 0 is checked numerically",
+                     "canonicalise/compress are identity stubs (C04/C05)", "the EX-space tensors V diag(E(x w)) V^T come from LAPACK eigh on concrete mode parameters: x and shift stay symbolic, the coefficient matrix of every exponential atom is compared numerically (1e-9) with the eigenpairs of that mode's own Hamiltonian built in the harness (modes sharing a frequency but not the displacement included)",
                      "tree purification (add_auxiliary_space) is under the tree checks"],
         trusted_base=["z3 5.1", "NumPy object loops"],
         functions=[mpsmod.Mps.evolve, mpsmod.Mps._evolve_prop_and_compress, mpsmod.Mps.evolve_exact, mpdmmod.MpDm.evolve_exact, mpomod.Mpo.exact_propagator, mpsmod.normalize,
